@@ -27,6 +27,10 @@ def run(ctx):
                        judge="geom/VoxelJudge", timeout=3000)
     import c07_prims
     c07_prims.run(ctx)
+    # 2-D accelerated colliders (mesh / BVH / grouped / nested) on pixel worlds and integer polygons: exact crossing
+    # counts of rays in general position, ColliderContains = even-odd parity, first hit consistent with the count
+    import c08_accel2
+    c08_accel2.run(ctx, clauses=c08_accel2.C07_CLAUSES, kinds="collider")
     # transformed colliders: every chain of transform atoms around a box collider - ray hits at the images of the
     # original hits with the same parameter and unit outward normals, ball queries with the pulled-back radius
     from props import C05
